@@ -63,6 +63,18 @@ SCRIPTS[("C04", "f25_shield_raised_after_request")] = ("known finding F25: the o
 SCRIPTS[("C01", "f24_child_natively_cancelled_before_first_step")] = ("known finding F24: child natively cancelled before its first step: its handle is never final", [
     (S.NEWROOT,), (S.GNEW, 1), (S.GENTER, 1, 1), (S.SPAWN, 1, 1), (S.NATIVECANCEL, 2), (S.RUNSTEP, 2), (S.RUNTASKDONE, 2), (S.RUNWAKE, 1),
     (S.GEXIT, 1, 1), (S.RUNSTEP, 1)])
+SCRIPTS[("C07", "started_twice_after_caller_cancelled")] = ("the caller of start() is cancelled before the child's first started(); the child, in a shielded section, calls started() twice: both calls are no-ops", [
+    (S.NEWROOT,), (S.GNEW, 1), (S.GENTER, 1, 1), (S.NEWSCOPE, 1, -1, 0), (S.ENTER, 1, 2), (S.START, 1, 1), (S.RUNSTEP, 2),
+    (S.NEWSCOPE, 2, -1, 1), (S.ENTER, 2, 4), (S.EXTCANCEL, 2), (S.RUNWAKE, 1), (S.STARTED, 2, 5), (S.STARTED, 2, 6), (S.EXIT, 2, 4, 0)])
+SCRIPTS[("C02", "start_in_cancelled_scope_child_fails_after_future_cancelled")] = ("start() inside an already cancelled scope: the delivery cancels the start future first, then the child fails in its first segment - its error goes to the group exactly once and start() re-raises the cancellation", [
+    (S.NEWROOT,), (S.GNEW, 1), (S.GENTER, 1, 1), (S.NEWSCOPE, 1, -1, 0), (S.ENTER, 1, 2), (S.CANCEL, 1, 2), (S.START, 1, 1), (S.RUNDELIVER, 2),
+    (S.RUNSTEP, 2), (S.HOLD, 2, 7), (S.FINISH, 2, 0), (S.RUNTASKDONE, 2), (S.RUNWAKE, 1), (S.EXIT, 1, 2, 0), (S.GEXIT, 1, 1), (S.RUNSTEP, 1)])
+SCRIPTS[("C07", "start_in_cancelled_scope_child_fails_after_future_cancelled")] = SCRIPTS[("C02", "start_in_cancelled_scope_child_fails_after_future_cancelled")]
+SCRIPTS[("C05", "native_cancel_after_own_scope_cancel_in_join")] = ("the host waits in __aexit__ for a child in shielded clean-up; it has already caught the group's own cancellation when a native Task.cancel() arrives: the native cancellation must come out of the block", [
+    (S.NEWROOT,), (S.GNEW, 1), (S.GENTER, 1, 1), (S.SPAWN, 1, 1), (S.RUNSTEP, 2), (S.NEWSCOPE, 2, -1, 1), (S.ENTER, 2, 3), (S.SLEEP, 2, -1),
+    (S.CANCEL, 1, 1), (S.GEXIT, 1, 1), (S.RUNDELIVER, 1), (S.RUNWAKE, 1), (S.NATIVECANCEL, 1), (S.RUNWAKE, 1), (S.EXTCANCEL, 3), (S.RUNWAKE, 2),
+    (S.EXIT, 2, 3, 0), (S.FINISH, 2, 0), (S.RUNTASKDONE, 2), (S.RUNWAKE, 1)])
+SCRIPTS[("C04", "native_cancel_after_own_scope_cancel_in_join")] = SCRIPTS[("C05", "native_cancel_after_own_scope_cancel_in_join")]
 SCRIPTS[("C07", "f2_started_child_error_after_starter_cancelled")] = SCRIPTS[("C02", "f2_started_child_error_after_starter_cancelled")]
 SCRIPTS[("C07", "f20_pre_started_error_with_native_cancel_of_starter")] = ("F20: the child fails before started(), its task_done callback hands the error to the start future, the starter is natively cancelled before it runs again: start() must raise the child's error [2007], not the cancellation", [
     (S.NEWROOT,), (S.GNEW, 1), (S.GENTER, 1, 1), (S.START, 1, 1), (S.RUNSTEP, 2), (S.HOLD, 2, 7), (S.FINISH, 2, 0),
